@@ -241,7 +241,8 @@ CliOps == {"RemoveGapSites", "RemoveCharacterSites", "RemoveMajorityCharacterSit
            "Deduplicate", "Compress", "Mask", "MaskPositions", "MaskOccurences", "MaskUnique", "SubAlign", "Replace",
            "ShuffleSequences", "Swap", "Recombine", "Mutate", "AddGaps", "Sample", "SampleSeqBag", "RandSubAlign",
            "Rename", "RenameRegexp", "CleanNames", "TrimNames", "TrimNamesAuto", "AppendSeqIdentifier", "TrimSequences",
-           "Unalign", "Transpose", "RefCoordinates", "Split", "SelectSites", "RefSites", "InversePositions", "CodonAlign", "InverseCoordinates"} \cup CliQueryOps
+           "Unalign", "Transpose", "RefCoordinates", "Split", "SelectSites", "RefSites", "InversePositions", "CodonAlign", "InverseCoordinates",
+           "Concat", "Append", "ToUpper", "ToLower"} \cup CliQueryOps
 \* relations that need the part of the return record the command writes to a side file
 CliNeedsRet == {"Compress", "CleanNames", "TrimNames", "TrimNamesAuto"}
 
